@@ -88,12 +88,51 @@ def r9_overlay(ctx, cfg):
     C06.r6(ctx, cfg, R="C01.R9")
 
 
+def transactional_entries(cfg):
+    """the names of App's transactional entry points: the classified ones, and every other `&mut self` method of App that wraps
+    App.storage in `transactional` (it is then held to the obligations of C01.R2 like the classified ones)"""
+    F = cfg.facts
+    names = [n for n, c in ENTRY_CLASSES.items() if c == "transactional"]
+    for imp in F.impls:
+        if imp["self_name"] != APP or imp["derived"]:
+            continue
+        for m in imp["methods"]:
+            ins = m["inputs"]
+            if m["name"] in ENTRY_CLASSES or not ins or ins[0].get("ref") != "mut" or not ins[0].get("pointee", "").startswith("app::App<"):
+                continue
+            if q.lexical_calls(F, m["key"], TRANSACTIONAL) and m["name"] not in names:
+                names.append(m["name"])
+    return names
+
+
+def _well_formed_boundary(cfg, caller):
+    """a transaction boundary outside App: `transactional(base, ..)` over a store the caller was handed (a `&mut dyn Storage`
+    parameter), with the verdict of the transaction propagated - such a boundary can only add atomicity (commit happens
+    inside `transactional`, iff Ok: C01.R3)"""
+    F, P = cfg.facts, cfg.prov
+    f = F.fn(caller)
+    if f is None:
+        return False
+    sites = [(g, b, t) for g, b, t in q.lexical_calls(F, caller, TRANSACTIONAL)]
+    if not sites:
+        return False
+    for g, b, t in sites:
+        base = peel(P.call_args(g, t, b)[0])
+        if g.key != caller or base[0] != "param" or not q.is_storage_mut_ty(f.locals[base[1]]):
+            return False
+        if not q.error_propagates(P, g, b):
+            return False
+    return True
+
+
 def r8_layering(ctx, cfg):
     """who may open, commit or bypass a transaction"""
     F = cfg.facts
     R = "C01.R8"
+    auto = {"app::App::" + n for n in transactional_entries(cfg)}
     q.who_may_call(ctx, R, F, TRANSACTIONAL, {"app::App::execute_multi", "app::App::wasm_sudo", "app::App::sudo", "wasm::WasmKeeper::execute_submsg",
-                                              "wasm::WasmKeeper::with_storage"}, "a new transaction boundary needs a decision")
+                                              "wasm::WasmKeeper::with_storage"} | auto, "a new transaction boundary needs a decision",
+                   accept=lambda c: _well_formed_boundary(cfg, c))
     q.who_may_call(ctx, R, F, "transactions::RepLog::commit", {TRANSACTIONAL}, "only `transactional` may replay a log onto its base")
     q.who_may_call(ctx, R, F, "transactions::StorageTransaction::new", {TRANSACTIONAL}, "caches are created by `transactional` only")
     q.who_may_call(ctx, R, F, "transactions::StorageTransaction::prepare", {TRANSACTIONAL}, "caches are consumed by `transactional` only")
@@ -115,6 +154,8 @@ def r1_inventory(ctx, cfg):
             n += 1
             cls = ENTRY_CLASSES.get(m["name"])
             seen.add(m["name"])
+            if cls is None and m["name"] in transactional_entries(cfg):
+                cls = "auto:transactional (held to C01.R2)"
             if cls is None and _touches_no_chain_state(cfg, m["key"]):
                 # a new `&mut self` method that reaches neither App.storage nor App.router mutably (e.g. a setter of
                 # the block or the api) cannot change chain state: no classification needed
@@ -240,9 +281,7 @@ def _is_app_storage(o):
 # ------------------------------------------------------------------------- R2
 def r2_handoff(ctx, cfg):
     F, P = cfg.facts, cfg.prov
-    for name, cls in ENTRY_CLASSES.items():
-        if cls != "transactional":
-            continue
+    for name in transactional_entries(cfg):
         key = "app::App::" + name
         f = ctx.need_fn("C01.R2", key)
         if f is None:
